@@ -31,6 +31,8 @@ def frame():
     df["n"] = [5, 6, 7, 5, 6, 7, 8, 9]
     df["m"] = [9, 10, -1, -2, 10, 9, -2, -1]  # multi-digit and negative integers: string order differs from numeric order
     df["xf"] = [2.5, 10.5, 2.5, 0.25, 10.5, 7.0, 0.25, 7.0]
+    df["z0"] = [1, 0, -1, 0, 1, -1, 1, 0]  # zero is a level, and not the first one
+    df["e0"] = ["b", "", "a", "", "b", "a", "b", ""]
     return df
 
 
@@ -61,7 +63,8 @@ def cases():
         out.append({"k": "identity", "e": e})
     pairs = [("B(f, 'b')", "binary(f, 'b')"), ("B(k)", "binary(k)"), ("standardize(x)", "scale(x)"), ("standardize(np.log(x))", "scale(np.log(x))"),
              ("T(f, 'c')", "C(f, Treatment('c'))"), ("T(f)", "C(f, Treatment)"), ("T(f)", "C(f)"), ("T(k, 20)", "C(k, Treatment(20))"), ("S(f, 'a')", "C(f, Sum('a'))"),
-             ("S(f)", "C(f, Sum)"), ("S(o)", "C(o, Sum())"), ("T(f, ref='b')", "T(f, 'b')"), ("S(f, omit='b')", "S(f, 'b')")]
+             ("S(f)", "C(f, Sum)"), ("S(o)", "C(o, Sum())"), ("T(f, ref='b')", "T(f, 'b')"), ("S(f, omit='b')", "S(f, 'b')"),
+             ("T(z0, 0)", "C(z0, Treatment(0))"), ("S(z0, 0)", "C(z0, Sum(0))"), ("T(z0, 1)", "C(z0, Treatment(1))"), ("T(e0, 'b')", "C(e0, Treatment('b'))")]
     ctx = ["y ~ {a}", "y ~ 0 + {a}", "y ~ x + {a}:x", "y ~ ({a} | g)", "y ~ {a} + z"]
     for a, b in pairs:
         for c in ctx:
